@@ -365,7 +365,7 @@ class Prog:
             for k in diff:
                 v = S._var(self.spec, k)
                 val = eval(S.var_value(self.spec, variant, k), {"OrderedDict": __import__("collections").OrderedDict,
-                                                                "PurePosixPath": __import__("pathlib").PurePosixPath, "datetime": __import__("datetime")})
+                                                                "PurePosixPath": __import__("pathlib").PurePosixPath, "datetime": __import__("datetime"), "math": __import__("math")})
                 for pk in (self.pkg, self.rpkg):
                     for mname, m in list(sys.modules.items()):
                         if mname.split(".")[0] == pk and hasattr(m, k) and not isinstance(getattr(m, k), types.ModuleType):
@@ -382,7 +382,7 @@ class Prog:
         f = S._fn(self.spec, e["fn"])
         m = self.mod(f["module"], ref=ref)
         d = self.w.refdds if ref else sys.modules["dds"]
-        ns = {"OrderedDict": __import__("collections").OrderedDict, "PurePosixPath": __import__("pathlib").PurePosixPath, "datetime": __import__("datetime")}
+        ns = {"OrderedDict": __import__("collections").OrderedDict, "PurePosixPath": __import__("pathlib").PurePosixPath, "datetime": __import__("datetime"), "math": __import__("math")}
         r = S.Renderer(self.spec, self.variant, self.pkg, self.xpkg)
         args = [eval(r.epv(a), ns) for a in e.get("args", [])]
         kwargs = {n: eval(r.epv(a), ns) for n, a in e.get("kwargs", [])}
